@@ -1,4 +1,117 @@
 import EaselModel.Core.Proto
-/-! Line-protocol driver for the C14 model (stub: answers bad-op until the model lands). -/
-open EaselModel.Proto
-def main : IO Unit := runDriver () (fun s _ => (s, "bad-op"))
+import EaselModel.Getopts.Model
+/-! Line-protocol driver for the C14 model (same ops as harness/h_getopts.c). -/
+open EaselModel EaselModel.Proto EaselModel.Getopts
+
+structure S where
+  table : List Opt := []
+  g : Option G := none
+  dead : Bool := false      -- the model predicted a crash of the C code: nothing more is answered
+
+def strOfBytes (bs : List UInt8) : Str := bs.map (fun b => Char.ofNat b.toNat)
+def bytesOfStr (s : Str) : List UInt8 := s.map (fun c => UInt8.ofNat c.toNat)
+
+/-- `~` = NULL, `-` = empty, else hex -/
+def field (ws : List String) (key : String) : Option Str :=
+  match arg? ws key with
+  | none => none
+  | some "~" => none
+  | some v => (bytesOfHex v).map strOfBytes
+
+def hexWord (w : String) : Str := ((bytesOfHex w).getD []).map (fun b => Char.ofNat b.toNat)
+
+def statusName : Status → String
+  | .ok => "ok"
+  | .esyntax => "esyntax"
+  | .einval => "einval"
+
+def report (s : S) (r : R) : S × String :=
+  match r with
+  | .fault => ({ s with dead := true }, "fault")
+  | .done g st m => ({ s with g := some g }, statusName st ++ (if m then " msg" else " nomsg"))
+
+def valRepr : Val → String
+  | .null => "~"
+  | .one => "1"
+  | .str s => hexOrDash (bytesOfStr s)
+
+def b01 (b : Bool) : String := if b then "1" else "0"
+
+def typed (g : G) (i : Nat) : String :=
+  let o := g.opt i
+  let v := g.valOf i
+  match o.type with
+  | 0 => "b" ++ b01 (!v.isNull)
+  | 1 => match v with
+    | .str s => "i" ++ toString (atoi s)
+    | _ => "i~"
+  | 2 => match v with
+    | .str s => "x" ++ (atof s).canon
+    | _ => "x~"
+  | 3 => match v with
+    | .str s => "c" ++ toString ((s.getD 0 '\x00').toNat)
+    | _ => "c~"
+  | _ => match v with
+    | .str s => "s" ++ toString s.length
+    | _ => "s-1"
+
+def dump (g : G) : String :=
+  let n := argNumber g
+  let args := (List.range (n + 1).toNat).map fun (k : Nat) =>
+    match getArg g ((k : Int) + 1) with
+    | none => "~"
+    | some a => hexOrDash (bytesOfStr a)
+  let opts := (List.range g.opts.length).map fun i =>
+    valRepr (g.valOf i) ++ "/" ++ toString (g.setter i) ++ "/" ++ b01 (isDefault g i) ++ b01 (isOn g i) ++ b01 (isUsed g i)
+      ++ "/" ++ typed g i
+  "ok argn=" ++ toString n ++ " args=" ++ ",".intercalate args ++ " opts=" ++ ";".intercalate opts
+
+def step (s : S) (line : String) : S × String :=
+  if s.dead then (s, "fault") else
+  let ws := words line
+  match ws with
+  | "opt" :: _ =>
+    if s.g.isSome then (s, "bad-op") else
+    match field ws "name", argNat? ws "type" with
+    | some name, some t =>
+      let o : Opt := { name := name, type := t, defval := field ws "def", envvar := field ws "env", range := field ws "range",
+                       toggle := field ws "tog", required := field ws "req", incompat := field ws "inc" }
+      ({ s with table := s.table ++ [o] }, "ok")
+    | _, _ => (s, "bad-op")
+  | "create" :: _ =>
+    if s.g.isSome || s.table.isEmpty then (s, "bad-op") else
+    match create s.table with
+    | some g => ({ s with g := some g }, "ok")
+    | none => (s, "einval")
+  | op :: _ =>
+    match s.g with
+    | none => (s, "nog")
+    | some g =>
+      match op with
+      | "cmdline" =>
+        let argv := match arg? ws "w" with
+          | none => []
+          | some "" => []
+          | some v => (v.splitOn ",").map hexWord
+        report s (processCmdline g argv)
+      | "spoof" => report s (processSpoof g ((field ws "s").getD []))
+      | "env" =>
+        let pairs : List (Str × Str) := match arg? ws "v" with
+          | none => []
+          | some "" => []
+          | some v => (v.splitOn ",").filterMap fun p =>
+              match p.splitOn ":" with
+              | [a, b] => some (hexWord a, hexWord b)
+              | _ => none
+        -- later assignments of the same name win (setenv overwrite)
+        let env : Str → Option Str := fun name => (pairs.reverse.find? (fun p => p.1 == name)).map (·.2)
+        report s (processEnvironment g env)
+      | "cfg" => report s (processConfigfile g ((field ws "s").getD []))
+      | "verify" =>
+        let (st, m) := verifyConfig g
+        (s, statusName st ++ (if m then " msg" else " nomsg"))
+      | "dump" => (s, dump g)
+      | _ => (s, "bad-op")
+  | [] => (s, "bad-op")
+
+def main : IO Unit := runDriver ({} : S) step
